@@ -31,7 +31,7 @@ pub mod fk {
         transient_err_read, transient_err_write, write_zero, stream_cut_in_frame, stream_cut_at_boundary,
         cancel_read, cancel_write, cancel_sync, sink_full, poison_frame, hostile_prefix,
         garbage_buffer, fatal_err_read, fatal_err_write, encode_fail, oversize_value, pipe_full, pipe_empty,
-        peer_close, max_len_knob, task_switch, flush_err, flush_pending, scribble_unfilled, vectored_io, late_cancel, flush_between_cancel_and_sync,
+        peer_close, max_len_knob, task_switch, flush_err, flush_pending, scribble_unfilled, vectored_io, late_cancel, flush_between_cancel_and_sync, read_exact_override,
     );
 }
 
@@ -381,7 +381,10 @@ impl<P: Property> Batch<P> {
                 let watch = watch.clone();
                 let merged = merged.clone();
                 let me = self;
-                handles.push(scope.spawn(move || {
+                // roomy stacks: a tree whose *other* half is broken can feed the library garbage that a recursive codec
+                // follows very deep (pipe world); that must not take the harness down
+                let builder = std::thread::Builder::new().name(format!("worker-{w}")).stack_size(BIG_STACK);
+                handles.push(builder.spawn_scoped(scope, move || {
                     let mut agg = Aggregate::<P::S>::new();
                     loop {
                         let start = next.fetch_add(chunk, Ordering::Relaxed);
@@ -434,7 +437,7 @@ impl<P: Property> Batch<P> {
                         }
                     }
                     merged.lock().unwrap().merge(agg);
-                }));
+                }).expect("spawn worker"));
             }
             for h in handles {
                 let _ = h.join();
@@ -446,6 +449,9 @@ impl<P: Property> Batch<P> {
         m
     }
 }
+
+/// Stack size of every thread that calls into the code under test (virtual memory; touched pages only are committed).
+pub const BIG_STACK: usize = 1 << 30;
 
 fn report_hang<P: Property>(seed: u64, index: u64, s: &P::S) -> ! {
     let v = Violation::new("hang", "run did not return within the watchdog limit (no stub call cap reached)");
